@@ -387,3 +387,75 @@ func verifHarness_C09_messageSet() {
 	}
 	vReach()
 }
+
+// C09: the sizing pass and the writing pass of every length-prefixed primitive agree at the
+// boundaries where a length prefix changes width (varint 63/64, 8191/8192; uvarint 126/127 ...),
+// and the decoder reads back exactly what was written.
+func verifHarness_C09_primitiveLengths() {
+	lens := []int{0, 1, 62, 63, 64, 65, 126, 127, 128, 129, 8190, 8191, 8192, 8193, 16382, 16383, 16384}
+	n := lens[vChoose("length", len(lens))]
+	data := make([]byte, n)
+	if n > 0 {
+		data[0] = vByte("first")
+		data[n-1] = vByte("last")
+	}
+	str := string(data)
+	kind := vChoose("primitive", 7)
+	var prep prepEncoder
+	put := func(pe packetEncoder) error {
+		switch kind {
+		case 0:
+			return pe.putVarintBytes(data)
+		case 1:
+			return pe.putBytes(data)
+		case 2:
+			return pe.putCompactBytes(data)
+		case 3:
+			return pe.putString(str)
+		case 4:
+			return pe.putCompactString(str)
+		case 5:
+			return pe.putNullableCompactString(&str)
+		case 6:
+			return pe.putRawBytes(data)
+		}
+		return nil
+	}
+	err := put(&prep)
+	vAssume(err == nil)
+	real := realEncoder{raw: make([]byte, prep.length)}
+	err = put(&real)
+	vAssert(err == nil, "writing-pass-succeeds")
+	vAssert(real.off == prep.length, "sizing-pass-and-writing-pass-agree")
+	rd := realDecoder{raw: real.raw}
+	var got []byte
+	switch kind {
+	case 0:
+		got, err = rd.getVarintBytes()
+	case 1:
+		got, err = rd.getBytes()
+	case 2:
+		got, err = rd.getCompactBytes()
+	case 3:
+		var s string
+		s, err = rd.getString()
+		got = []byte(s)
+	case 4:
+		var s string
+		s, err = rd.getCompactString()
+		got = []byte(s)
+	case 5:
+		var s *string
+		s, err = rd.getCompactNullableString()
+		if s != nil {
+			got = []byte(*s)
+		}
+	case 6:
+		got, err = rd.getRawBytes(n)
+	}
+	vAssert(err == nil && len(got) == n && rd.off == prep.length, "decoder-reads-back-the-same-length")
+	if n > 0 && len(got) == n {
+		vAssert(got[0] == data[0] && got[n-1] == data[n-1], "contents-preserved")
+	}
+	vReach()
+}
